@@ -280,6 +280,14 @@ func (e *c06Env) mutators(kind string) []mutator {
 			{"update", func(e *c06Env, v starlark.Value) error {
 				return e.callMethod(v, "update", starlark.NewList([]starlark.Value{starlark.Tuple{np, starlark.None}}))
 			}},
+			{"update(dict of 9)", func(e *c06Env, v starlark.Value) error {
+				// enough new keys to make the table grow: a bulk insertion must not resize a table that is being iterated
+				d := starlark.NewDict(9)
+				for i := 0; i < 9; i++ {
+					d.SetKey(starlark.Value(&probe{id: 200 + i, env: e}), starlark.None)
+				}
+				return e.callMethod(v, "update", d)
+			}},
 			{"d[k]=", func(e *c06Env, v starlark.Value) error { return e.callHelper("setkey", v, np) }},
 			{"d|=", func(e *c06Env, v starlark.Value) error { return e.callHelper("ior_d", v, np) }},
 		}
@@ -294,6 +302,13 @@ func (e *c06Env) mutators(kind string) []mutator {
 			{"pop", func(e *c06Env, v starlark.Value) error { return e.callMethod(v, "pop") }},
 			{"remove", func(e *c06Env, v starlark.Value) error { return e.callMethod(v, "remove", p1) }},
 			{"update", func(e *c06Env, v starlark.Value) error { return e.callMethod(v, "update", starlark.Tuple{np}) }},
+			{"update(list of 9)", func(e *c06Env, v starlark.Value) error {
+				var xs []starlark.Value
+				for i := 0; i < 9; i++ {
+					xs = append(xs, starlark.Value(&probe{id: 200 + i, env: e}))
+				}
+				return e.callMethod(v, "update", starlark.NewList(xs))
+			}},
 		}
 	}
 }
